@@ -188,7 +188,7 @@ type retConfig struct {
 
 func c12Configs(tier string) []*X2Config {
 	var res []*X2Config
-	depth := 5
+	depth := 6
 	if tier == "thorough" {
 		depth = 7
 	}
